@@ -64,9 +64,24 @@ package system
 //@   ensures[iff] err == nil <==> validSys(rule)
 //@   modifies nothing
 
-// buildRuleMap groups the valid rules by metric type. Its loop invariant (quantified over a map of slices) is not
-// discharged by the solvers, so it is not under contract: C13 covers system only through IsValidSystemRule,
-// onRuleUpdate and the assumed getRules contract (see DESIGN.md).
+// buildRuleMap groups the valid rules by metric type: a new map; every list in it is non-empty and made of valid
+// rules of that metric type; the caller's list is not written.
+//@ spec func listsOwned(m) = forall t Int :: has(m, t) ==> fresh(base(m[t])) && allocated(base(m[t])) && len(m[t]) > 0 && len(m[t]) <= cap(m[t])
+//@ spec func listsValid(m) = forall t Int :: forall k Int :: has(m, t) && 0 <= k && k < len(m[t]) ==> validSys(m[t][k]) && m[t][k].MetricType == t
+//@ spec func listsDisjoint(m) = forall t Int :: forall u Int :: has(m, t) && has(m, u) && t != u ==> base(m[t]) != base(m[u])
+//@ spec func groupedValid(m) = listsOwned(m) && listsValid(m) && listsDisjoint(m)
+//@ func buildRuleMap(rules) m
+//@   props C13
+//@   panics never
+//@   ensures[new-map] m != nil && fresh(m)
+//@   ensures[only-valid-rules-grouped-by-metric] groupedValid(m)
+//@   modifies nothing
+//@   loop 1:
+//@     invariant[new-map] m != nil && fresh(m)
+//@     invariant[lists-owned] listsOwned(m)
+//@     invariant[lists-disjoint] listsDisjoint(m)
+//@     invariant[lists-valid] listsValid(m)
+//@     invariant[callers-list-untouched] frame()
 
 //@ func onRuleUpdate(r) err
 //@   requires[holds-the-update-lock]{C15} wlockcount(updateRuleMux) > 0
@@ -82,10 +97,18 @@ package system
 //@   assumed
 //@   ensures gSysClearN == old(gSysClearN) + 1
 //@   modifies gSysClearN
+// whole-set load: unless the list is deep-equal to the recorded one (then nothing happens), the table in force is a
+// new map holding only valid rules grouped by metric type, and the raw list is recorded
 //@ func LoadRules(rules) (changed, err)
-//@   assumed
-//@   ensures gSysLoadN == old(gSysLoadN) + 1 && gSysLoadArg == rules
-//@   modifies heap, gSysLoadN, gSysLoadArg
+//@   props C13
+//@   panics never
+//@   sets gSysLoadN = old(gSysLoadN) + 1
+//@   sets gSysLoadArg = rules
+//@   ensures[recorded] gSysLoadN == old(gSysLoadN) + 1 && gSysLoadArg == rules
+//@   ensures[never-fails] err == nil
+//@   ensures[unchanged-load-is-a-no-op] !changed ==> ruleMap == old(ruleMap) && currentRules == old(currentRules)
+//@   ensures[only-valid-rules-in-force] changed ==> ruleMap != nil && fresh(ruleMap) && groupedValid(ruleMap) && currentRules == rules
+//@   modifies ruleMap, currentRules, gSysLoadN, gSysLoadArg
 
 // ---- C15: lock discipline of the rule tables (a load, store or use of the variable outside its lock is a data race)
 //@ guarded ruleMap by ruleMapMux {C15}
